@@ -43,7 +43,8 @@ type World struct {
 	cg      *callgraph.Graph
 	chaG    *callgraph.Graph
 
-	allFuncs map[*ssa.Function]bool
+	allFuncs    map[*ssa.Function]bool
+	phiVisiting map[*ssa.Phi]bool
 
 	// statistics (measured)
 	NRootPkgs, NAllPkgs, NFuncs, NModFuncs int
